@@ -28,6 +28,9 @@ claimed = {
  "C13": dict(cat="model_checking",
    text="Every well-formed program of L=3 (quick) / 4 (thorough) statement operations - Allocate, Pipeline (both updateTaskIfExistsOnNode values where the actions can pass them), Evict, Unevict, Checkpoint, Rollback(any earlier checkpoint), end - over 2 tasks / 1 node (quick) or 3 tasks / 2 nodes (thorough), from every initial session state (each task Pending, Running or Releasing, placed by the real NodeInfo.AddTask) with symbolic node capacity and task requests, is run through the real framework.Statement on a session with the real proportion allocate/deallocate handlers. After Discard, and after every Rollback, the solver decides term-by-term equality of a canonical dump (node idle/used/releasing in structured and vector form, shared-GPU maps, pods on node, task status/node/groups/virtual flag, job allocated + status index + counters + pod-set counters, queue allocated and non-preemptible at both levels) with the dump taken at that point, and that the cache saw no call; after Commit, each pod is bound, nominated or evicted at most once and exactly the pods whose final virtual status is Allocated / Pipelined / Releasing. Exhaustive over programs within the bound; quantities symbolic.",
    ref="DESIGN.md section 5 C13"),
+ "C06": dict(cat="model_checking",
+   text="Victim-eligibility kernels, decided for all values: (a) the real preempt filter (actions/preempt.buildFilterFuncForPreempt with the real minruntime plugin registered through its OnSessionOpen): symbolic preemptibility, int32 priorities of both jobs, victim queue, active pod, start time (age 0..1023 h) and per-queue preempt min-runtimes (unset or 0..1023 h) on a 3-level queue chain; accepted => preemptible, same queue, strictly lower priority, has active pods, age >= the min-runtime resolved by the documented rule (oracle walks the harness's own tree). (b) the real reclaim victims queue (actions/reclaim.getOrderedVictimsQueue -> JobsOrderByQueues.InitializeWithJobs with FilterNonPreemptible/FilterNonActiveAllocated + minruntime reclaim filter) for LCA and queue resolution on a two-tree hierarchy; accepted => preemptible, other queue, active pods, age >= documented resolution. Time is the engine's deterministic clock and durations are whole hours. Elastic-victim scenario validators, consolidation's re-placement rule and the evict/place co-commit are not yet covered by a kernel (co-commit partly by C13's commit kernel).",
+   ref="DESIGN.md section 5 C06"),
  "C03": dict(cat="model_checking",
    text="Gang kernels, decided for every status assignment and every symbolic minAvailable in [1,n] of K=1..2 pod sets x n=2 (quick) / 3 (thorough) tasks, with the session's real pod-set order (Session.PodSetOrderFn + the real subgrouporder plugin): (K1) real podgroup_info.GetTasksToAllocate - a pod set below its minimum gets exactly min-active pending tasks in one attempt (never a partial gang), a satisfied job grows by at most one task, only pending tasks, none twice; (K2) real GetTasksToEvict - the eviction unit keeps every pod set at/above its minimum or takes every active task, and the partial flag is truthful; (K3) real PodGroupInfo.ShouldPipelineJob is true exactly when a pod set has a nominated task and fewer than its minimum of other active tasks. Action-level gang commit (AllocateJob + Statement.Commit) is covered only through C13's commit kernel; hierarchical sub-group sets are outside.",
    ref="DESIGN.md section 5 C03"),
